@@ -36,9 +36,10 @@ try:
     for p in placed:
         os.remove(os.path.join(wt, p))
     build = sh("go build ./... && go vet -tags verif ./internal/promapi ./cmd/pint >/dev/null 2>&1; go build -tags verif ./...")
-    suite = sh("go test -vet=off -count=1 -timeout 25m ./...")
-    if suite.returncode != 0:  # cmd/pint watch tests bind fixed ports and flake when other suites run on this host
-        suite = sh("go test -vet=off -count=1 -timeout 25m ./...")
+    # own network namespace: cmd/pint watch tests bind fixed ports and collide with other suites running on this host
+    suite = sh("unshare -rn sh -c 'ip link set lo up; go test -vet=off -count=1 -timeout 25m ./...'")
+    if suite.returncode != 0:
+        suite = sh("unshare -rn sh -c 'ip link set lo up; go test -vet=off -count=1 -timeout 25m ./...'")
     ok = clean.returncode == 0 and broken.returncode != 0 and build.returncode == 0 and suite.returncode == 0
     print(json.dumps(dict(demo_clean_exit=clean.returncode, demo_patched_exit=broken.returncode, build=build.returncode, suite=suite.returncode, confirmed=ok)))
     if not ok:
